@@ -144,6 +144,14 @@ impl RemovalBuffer {
 
         if removed_ids.is_empty() {
             self.ids_buffer.push(removed_ids);
+        } else if let Some(ids) = self.removals.get_mut(&entity) {
+            // Removals from previous frames of the same tick are still buffered, merge with them.
+            for removed_id in removed_ids.drain(..) {
+                if !ids.contains(&removed_id) {
+                    ids.push(removed_id);
+                }
+            }
+            self.ids_buffer.push(removed_ids);
         } else {
             self.removals.insert(entity, removed_ids);
         }
